@@ -543,3 +543,14 @@ ROWS.append({"id": "K35", "prop": "C19", "expect": "silent", "what": "Bias: coun
     {"file": LSU, "old": "      t += v\n", "new": "      t += v\n      count += 1\n"},
     {"file": LSU, "old": "util.UniformSumCdf(len(sample) * len(transforms), normalized)", "new": "util.UniformSumCdf(count, normalized)"}]})
 T("K36", "C19", LSU, "      v = (a * s + b) % n\n      v = min(v, n - v)\n      t += v", "      r = (b + s * a) % n\n      t += min(n - r, r)", "Bias: renamed temporaries, commuted")
+
+# ---------------------------------------------------------------------------------- C12 purity (round 2)
+ROWS.append({"id": "K40", "prop": "C12", "expect": "fire", "rule": "R-C12-PURE", "what": "overlapping-template table cached without the block length in the key (seed r2)", "edits": [
+    {"file": NS, "old": "def OverlappingTemplateMatchingImpl(", "new": "_OTM_PI = {}\n\n\ndef OverlappingTemplateMatchingImpl("},
+    {"file": NS, "old": "  pi = OverlappingTemplateMatchingDistribution(n, m, k)\n", "new": "  if (m, k) not in _OTM_PI:\n    _OTM_PI[m, k] = OverlappingTemplateMatchingDistribution(n, m, k)\n  pi = _OTM_PI[m, k]\n"}]})
+ROWS.append({"id": "K41", "prop": "C12", "expect": "silent", "what": "the same cache keyed by every input of the table", "edits": [
+    {"file": NS, "old": "def OverlappingTemplateMatchingImpl(", "new": "_OTM_PI = {}\n\n\ndef OverlappingTemplateMatchingImpl("},
+    {"file": NS, "old": "  pi = OverlappingTemplateMatchingDistribution(n, m, k)\n", "new": "  if (n, m, k) not in _OTM_PI:\n    _OTM_PI[n, m, k] = OverlappingTemplateMatchingDistribution(n, m, k)\n  pi = _OTM_PI[n, m, k]\n"}]})
+ROWS.append({"id": "K42", "prop": "C12", "expect": "fire", "rule": "R-C12-PURE", "what": "call counter in a module-level list changes later results", "edits": [
+    {"file": NS, "old": "def OverlappingTemplateMatchingImpl(", "new": "_SEEN = []\n\n\ndef OverlappingTemplateMatchingImpl("},
+    {"file": NS, "old": "  pi = OverlappingTemplateMatchingDistribution(n, m, k)\n", "new": "  _SEEN.append(n)\n  pi = OverlappingTemplateMatchingDistribution(_SEEN[0], m, k)\n"}]})
